@@ -135,6 +135,13 @@ def _subs(tier, prop):
         S.append(mk_sub('F5-two-procs-one-pool', resources2(2), mons, zero=['cs', 'c0']))
         S.append(mk_sub('F5-pool-raised-later', with_ops(resources2(2, cap=0), [
             {'k': 'addres', 'res': 'r', 'amount': 1, 't': 't0'}]), mons, zero=['cs', 'c0']))
+        two_waiters = {'pools': {}, 'devices': [
+            {'k': 'source', 'name': 's1', 'cycle': 0, 'parts': 1}, {'k': 'source', 'name': 's2', 'cycle': 0, 'parts': 1},
+            {'k': 'proc', 'name': 'p1', 'up': ['s1'], 'cycle': 'c1', 'res': {'r': 1}},
+            {'k': 'proc', 'name': 'p2', 'up': ['s2'], 'cycle': 'c2', 'res': {'r': 1}},
+            {'k': 'sink', 'name': 'k1', 'up': ['p1'], 'cycle': 0}, {'k': 'sink', 'name': 'k2', 'up': ['p2'], 'cycle': 0}]}
+        S.append(mk_sub('F5-two-waiters-pool-raised-by-two', with_ops(two_waiters, [
+            {'k': 'addres', 'res': 'r', 'amount': 2, 't': 't0'}]), mons))
         S.append(mk_sub('F5-external-holder-releases', with_ops(serial('P', 2, res={'r': 1}) | {'pools': {'r': 1}}, [
             {'k': 'hold', 'res': 'r', 'amount': 1, 't': 0, 'prio': 'high'}, {'k': 'unhold', 'res': 'r', 't': 't0'}]), mons, zero=['cs']))
         # a machine waiting for a resource is shut down; the resource is released while it is down and busy again
@@ -162,6 +169,11 @@ def _subs(tier, prop):
         S.append(mk_sub('F1-B-n3-cap2', serial('B', 3, caps={1: 2}), mons, zero=['cs'] if q else []))
         S.append(mk_sub('F1-BP-n2-cap2', serial('BP', 2, caps={1: 2}), mons, zero=['cs']))
         S.append(mk_sub('F1-BP-n3-cap2-slow-consumer', serial('BP', 3, caps={1: 2}), mons, zero=['c0', 'cs']))
+        fan = {'devices': [{'k': 'source', 'name': 'src', 'cycle': 'c0', 'parts': 3},
+                           {'k': 'buffer', 'name': 'buf', 'up': ['src'], 'delay': 'd1', 'cap': 6},
+                           {'k': 'proc', 'name': 'p1', 'up': ['buf'], 'cycle': 'c1'}, {'k': 'proc', 'name': 'p2', 'up': ['buf'], 'cycle': 'c1'},
+                           {'k': 'sink', 'name': 'snk', 'up': ['p1', 'p2'], 'cycle': 0}]}
+        S.append(mk_sub('F2-delay-buffer-two-consumers', fan, mons, pre=['c0 < d1']))
         S.append(mk_sub('F7-batch-backlog-cap5', batch_backlog_in_buffer(5, (2, 2, 2)), mons + ['census'], zero=['cs', 'c0']))
         S.append(mk_sub('F7-batch-backlog-cap4-mixed', batch_backlog_in_buffer(4, (3, None, 2)), mons + ['census'], zero=['cs']))
         for size in (None, 2):
@@ -191,6 +203,9 @@ def _subs(tier, prop):
             {'k': 'shutdown', 'dev': 'p1', 't': 't0'}, {'k': 'restore', 'dev': 'p1', 't': 't1'},
             {'k': 'shutdown', 'dev': 'p1', 't': 't2'}, {'k': 'restore', 'dev': 'p1', 't': 't3'}]), mons, zero=['cs', 'c0'],
             pre=['t0 < t1', 't1 < t2', 't2 < t3', 't2 < c1 + (t1 - t0)']))
+        S.append(mk_sub('F8-source-replenished-mid-cycle', with_ops(serial('', 2), [{'k': 'budget', 'dev': 'src', 't': 't0', 'n': 2}]),
+                        mons, zero=['cs'], pre=['2 * c0 < t0', 't0 < 3 * c0']))
+        S.append(mk_sub('F8-source-replenished', with_ops(serial('', 2), [{'k': 'budget', 'dev': 'src', 't': 't0', 'n': 2}]), mons, zero=['cs']))
         spf = serial('P', 3)
         spf['devices'][1]['finish_offset'] = 'o2'
         S.append(mk_sub('F1-P-finish-callback-offset-zero-cycle', spf, mons, zero=['cs', 'c1'], ranges={'o2': (-L.T, L.T)}))
@@ -261,6 +276,12 @@ def _subs(tier, prop):
         S.append(mk_sub('F5-fail-while-down-holding', with_ops(serial('P', 2, res={'r': 1}) | {'pools': {'r': 1}}, [
             {'k': 'shutdown', 'dev': 'p1', 't': 't0'}, {'k': 'armfail', 'dev': 'p1', 't': 't0', 'delay': 'd1'},
             {'k': 'restore', 'dev': 'p1', 't': 't2'}]), mons, zero=['cs'], pre=['t0 + d1 <= t2']))
+        S.append(mk_sub('F5-blocked-processor-offered-a-part', with_ops(resources2(2), [
+            {'k': 'block', 'dev': 'p1', 't': 0, 'prio': 'high'}, {'k': 'unblock', 'dev': 'p1', 't': 't0'}]), mons, zero=['cs', 'c0']))
+        S.append(mk_sub('F5-waiting-processor-blocked-then-pool-freed', with_ops(two_lines_shared_tool(1, 1), [
+            {'k': 'hold', 'res': 'tool', 'amount': 1, 't': 0, 'prio': 'high'}, {'k': 'block', 'dev': 'p1', 't': 't0'},
+            {'k': 'unhold', 'res': 'tool', 't': 't1'}, {'k': 'unblock', 'dev': 'p1', 't': 't2'}]), mons, zero=['c3'],
+            pre=['t0 < t1', 't1 < t2']))
         S.append(mk_sub('F5-external-holder', with_ops(serial('P', 2, res={'r': 1}) | {'pools': {'r': 1}}, [
             {'k': 'hold', 'res': 'r', 'amount': 1, 't': 0, 'prio': 'high'}, {'k': 'unhold', 'res': 'r', 't': 't0'}]), mons, zero=['cs']))
         S.append(mk_sub('F5-two-resources', serial('P', 2, res={'r': 1, 's': 'a1'}) | {'pools': {'r': 1, 's': 'k1'}}, mons, zero=['cs'],
@@ -294,6 +315,10 @@ def _subs(tier, prop):
         spz['devices'][1]['addvalue'] = 'a1'
         # zero cycle time: the part is processed (and revalued) inside the source's own hand-over call
         S.append(mk_sub('F1-P-n2-values-zero-cycle', spz, mons, zero=['cs', 'c1'], ranges={'v0': (-L.T, L.T), 'a1': (1, L.T)}))
+        spb = {'devices': [{'k': 'source', 'name': 'src', 'cycle': 'c0', 'parts': 2, 'batches': [[2, 1], 2], 'value': 'v0'},
+                           {'k': 'handler', 'name': 'h1', 'up': ['src'], 'cycle': 'c1'},
+                           {'k': 'sink', 'name': 'snk', 'up': ['h1'], 'cycle': 0}]}
+        S.append(mk_sub('F7-batches-nested-values', spb, mons, ranges={'v0': (-L.T, L.T)}))
         sp2 = serial('PP', 2)
         sp2['devices'][0]['value'] = 'v0'
         sp2['devices'][1]['addvalue'] = 'a1'
@@ -339,6 +364,14 @@ def _subs(tier, prop):
                               {'k': 'path', 'name': 'op', 'group': 'gout', 'up': ['src']},
                               {'k': 'sink', 'name': 'snk', 'up': ['op'], 'cycle': 'cs'}]}
         S.append(mk_sub('F4-nested-n2', nested, mons))
+        nested2 = {'groups': [{'name': 'gin', 'devices': ['m1']}, {'name': 'gout', 'devices': ['ip', 'x']}],
+                   'devices': [{'k': 'source', 'name': 'src', 'cycle': 'c0', 'parts': 2},
+                               {'k': 'proc', 'name': 'm1', 'up': [], 'cycle': 'c1'},
+                               {'k': 'path', 'name': 'ip', 'group': 'gin', 'up': []},
+                               {'k': 'handler', 'name': 'x', 'up': ['ip'], 'cycle': 'c2'},
+                               {'k': 'path', 'name': 'op', 'group': 'gout', 'up': ['src']},
+                               {'k': 'sink', 'name': 'snk', 'up': ['op'], 'cycle': 0}]}
+        S.append(mk_sub('F4-nested-inner-path-first-of-two', nested2, mons, zero=['c0']))
         S.append(mk_sub('F7-batches-through-gate-refused', batches_through_gate(2), mons, zero=['cs', 'c0']))
         fanb = {'devices': [{'k': 'source', 'name': 'src', 'cycle': 'c0', 'parts': 2},
                             {'k': 'proc', 'name': 'p1', 'up': ['src'], 'cycle': 'c1'}, {'k': 'proc', 'name': 'p2', 'up': ['src'], 'cycle': 'c1'},
@@ -361,6 +394,8 @@ def _subs(tier, prop):
                 S.append(mk_sub(f'F7-size{size}-in{nm}', spec, mons, ranges={'b0': (0, 3), 'b1': (0, 3), 'b2': (0, 3)},
                                 zero=['c0', 'cs'] if (q and size is None) else ['c0']))
         S.append(mk_sub('F7-batches-through-gate-refused', batches_through_gate(2), ['batch', 'routing'], zero=['cs', 'c0']))
+        S.append(mk_sub('F7-empty-batch-while-unpacking', batches_into_batcher((3, 0, 2), 2), mons[:1] + ['census'], zero=['cs', 'c0']))
+        S.append(mk_sub('F7-empty-batch-while-unpacking-single', batches_into_batcher((3, 0, 2), None), mons[:1] + ['census'], zero=['cs', 'c0']))
         S.append(mk_sub('F7-buffer-into-batcher-size2', buffer_into_batcher(2), mons, zero=['c0', 'd1'],
                         ranges={'b0': (0, 3), 'b1': (0, 3)}))
         spec = {'devices': [{'k': 'source', 'name': 'src', 'cycle': 0, 'parts': 2, 'batches': ['b0', 'b1']},
@@ -481,7 +516,7 @@ REQUIRED = {
     'C11': ['processing_with_resources', 'resources_kept_through_maintenance', 'released_on_failure', 'idle_processor_released'],
     'C15': ['level_recorded', 'failure_recorded', 'produced_recorded', 'supplied_recorded', 'resource_recorded', 'work_order_recorded',
             'trace_checked', 'schedule_recorded', 'schedule_change_to_equal_state_recorded'],
-    'C16': ['value_added_by_processing', 'valuable_part_received', 'work_order_cost_charged'],
+    'C16': ['value_added_by_processing', 'valuable_part_received', 'work_order_cost_charged', 'batch_valued'],
     'C08': ['idle_longest_decided', 'passed_gate', 'entered_group', 'left_group_through_entry_path'],
     'C17': ['full_batch_emitted', 'batch_unpacked', 'partial_batch_waiting', 'history_reached_contained_part', 'empty_batch_input'],
     'C13': ['failure_occurred', 'failure_lost_a_part', 'failure_while_down_with_part', 'repeated_shutdown', 'repeated_restore',
